@@ -291,16 +291,18 @@ not target a return qubit, and `bennettF` shows that it gives back zeros. -/
 /-- **C03 on the general class** (`inGeneralCleanClass` = `inGeneralClean` ∨ `inCleanFragment`): the class of
 `C02_general_partial` – arguments, several return bits, `Not` / `And` / `Or` / `Xor` of any arity with ANY sharing of
 sub-expressions inside and across definitions (cache hits, also of a return statement on the kept ancillas of an
-intermediate), re-use of released ancillas, every admissible sequence of ancilla choices – restricted to definition
-lists in which every name is defined once and is not an argument (`freshDefs`), no right-hand side mentions a
-constant, and the intermediates come first and the requested return bits last (`keptThenRet`).  With final
+intermediate), re-binding of intermediates and arguments, constants, re-use of released ancillas, every admissible
+sequence of ancilla choices – restricted to definition lists in which the intermediates come first and the requested
+return bits last (`keptThenRet`), each return bit a NEW name defined once whose right-hand side is without constants
+or a bare constant (`retDefs`; sympy leaves no other form).  With final
 uncomputation on, every successful run of the compiler model is `Clean`: on every input every argument qubit is
 unchanged and every qubit that is neither an argument nor the qubit of a requested return bit is back to zero.
 
-Not covered (`docs/notes/C02_C03_C06.md`): a name defined twice – for a requested return name the compiler is
-WRONG there (finding: the first result qubit is uncomputed by `uncompute_all` after its ancillas were released);
-an intermediate defined after a return bit (it may re-use ancillas the return statement released: the replayed
-part of the return statement is then a palindrome `W ++ W.reverse`, not proved); constants. -/
+Not covered (`docs/notes/C02_C03_C06.md`): a requested return name defined twice or re-binding an argument – the
+compiler is WRONG there (finding: the first result qubit is uncomputed by `uncompute_all` after its ancillas were
+released); an intermediate defined after a return bit (it may re-use ancillas the return statement released: the
+replayed part of the return statement is then a palindrome `W ++ W.reverse`, not proved; no instance of the check's
+corpus has this shape); a constant inside a return bit's compound expression (model only). -/
 theorem C03_general_partial (inputs : List String) (defs : List (String × BExp)) (rets : List String)
     (choices : List Nat) (s : CState)
     (hf : inGeneralCleanClass inputs defs rets = true)
@@ -310,9 +312,9 @@ theorem C03_general_partial (inputs : List String) (defs : List (String × BExp)
   rcases hf with hf | hf
   · simp only [inGeneralClean, inGeneral, Bool.and_eq_true, decide_eq_true_eq, List.all_eq_true,
       Bool.not_eq_true'] at hf
-    obtain ⟨⟨⟨⟨⟨hnd, hfr⟩, hgen⟩, _⟩, hfresh⟩, hkr⟩ := hf
+    obtain ⟨⟨⟨⟨hnd, hfr⟩, hgen⟩, _⟩, hkr⟩ := hf
     intro x hx q _
-    exact compile_general_clean h hnd hfr hgen hfresh hkr x hx q
+    exact compile_general_clean h hnd hfr hgen hkr x hx q
   · exact C03_fragment_partial inputs defs rets choices s hf h
 
 /-- an instance of the class that is in no older class: two intermediates (`m` is read three times, `And(a, b)`
